@@ -70,8 +70,8 @@ func funcSrc(name, expr, ctx string) string {
 	default: // right-hand side of a plain assignment statement
 		sb.WriteString("    $r = " + expr + ";\n")
 	}
-	sb.WriteString("    return gettype($r) . \":\" . json_encode($r) . \"|\" . json_encode([$x, $p, $y]);\n")
-	sb.WriteString("  } catch (Throwable $e) {\n    return \"THROW:\" . get_class($e) . \"|\" . json_encode([$x, $p, $y]);\n  }\n}\n")
+	sb.WriteString("    return gettype($r) . \":\" . json_encode($r) . \"|\" . json_encode([$x, $p, $y, $n]);\n")
+	sb.WriteString("  } catch (Throwable $e) {\n    return \"THROW:\" . get_class($e) . \"|\" . json_encode([$x, $p, $y, $n]);\n  }\n}\n")
 	return sb.String()
 }
 
